@@ -177,8 +177,9 @@ def check_transparency(res, seed, n):
     found = 0
     alias, outside = [], []
     summary["nondeterministic_replays_skipped"] = (summary.get("by_stage") or {}).get("nondeterministic-replay", 0)
+    summary["nondeterministic_followups_skipped"] = (summary.get("by_stage") or {}).get("nondeterministic-follow", 0)
     for r in reports:
-        if r.get("stage") == "nondeterministic-replay":
+        if r.get("stage") in ("nondeterministic-replay", "nondeterministic-follow"):
             continue
         if r.get("stage") in ("follow", "structure") and r.get("shared"):
             alias.append(r)
